@@ -854,6 +854,9 @@ def make_adapter_lock_pub(
         DEPRECATED: use `make_adapter_locks_pub` instead.
     """
     pubkey = _pubkey(pubkey)
+    # the decrypted signature commits to the message selected by sigflags, so
+    # it must carry the flag byte like any other flagged signature
+    sigflag_suffix = f'push x{sigflags} concat' if int(sigflags, 16) else ''
 
     return Script.from_src(f'''
         # required push by unlocking script: tweak scalar t #
@@ -873,6 +876,7 @@ def make_adapter_lock_pub(
         # decrypt adapter sig #
         @sa @R @t decrypt_adapter_sig
         concat
+        {sigflag_suffix}
 
         # check sig #
         push x{pubkey.hex()}
